@@ -104,6 +104,9 @@ func c08roundtrip(w *mon.W, r *gen.R, orig *ast.Policy, mp *model.Policy, src st
 		}()
 		cp := NewPolicy(orig)
 		text1 = cp.MarshalCedar()
+		if len(text1)%2 == 1 {
+			p2 = *UsedPolicy() // a receiver that already holds another policy
+		}
 		perr = p2.UnmarshalCedar(text1)
 	}()
 	w.Evals(1)
